@@ -17,7 +17,7 @@ import numpy
 from common import Check, Driver, Infra, VERIF, sarpy_guard
 
 REQUIRED = ['eval_pass', 'eval_shift0', 'eval_scale', 'eval_shift', 'eval_eq', 'toPoly_der', 'eval_derN',
-            'eval_minimize', 'minimize_nonempty', 'eval2_shift02', 'eval2_scaleRowsAux', 'eval2_map_rows', 'xyz_shift']
+            'eval_minimize', 'minimize_nonempty', 'eval2_minimize2', 'minimize2_nonempty', 'eval_take', 'eval2_shift02', 'eval2_scaleRowsAux', 'eval2_map_rows', 'xyz_shift']
 EPS = 2.0 ** -52
 
 
@@ -122,6 +122,23 @@ def run(tier):
             body = ';'.join(qs(row) for row in rows)
             jobs.append(('shift2', (rows, s1, a1, s2, a2), drv.ask(f'poly shift2 {q(s1)} {q(a1)} {q(s2)} {q(a2)} {body}')))
             jobs.append(('eval2', (rows, x, y), drv.ask(f'poly eval2 {body} {q(x)} {q(y)}')))
+            # trimming: zero patterns that reach every branch of Poly2DType.minimize_order
+            pat = rng.choice(['dense', 'zero-rows', 'zero-cols', 'both', 'first-var-only', 'second-var-only', 'constant', 'all-zero', 'L'])
+            r2, k2 = r + rng.randint(0, 2), k + rng.randint(0, 2)
+            mrows = [[(rows[i][j] if i < r and j < k else 0.0) for j in range(k2)] for i in range(r2)]
+            if pat in ('first-var-only', 'constant'):
+                mrows = [[v if j == 0 else 0.0 for j, v in enumerate(row)] for row in mrows]
+            if pat in ('second-var-only', 'constant'):
+                mrows = [[v if i == 0 else 0.0 for v in row] for i, row in enumerate(mrows)]
+            if pat == 'all-zero':
+                mrows = [[0.0] * k2 for _ in range(r2)]
+            if pat == 'L':
+                mrows = [[v if (i == 0 or j == 0) else 0.0 for j, v in enumerate(row)] for i, row in enumerate(mrows)]
+            if pat == 'dense':
+                mrows = [list(row) for row in rows]
+            feats.add(('min2', pat))
+            which = rng.choice(['Poly2DType', 'GainPhasePoly', 'GainPhasePoly-cphd'])
+            jobs.append(('min2', (mrows, which), drv.ask('poly min2 ' + ';'.join(qs(row) for row in mrows))))
     try:
         ans = drv.run()
     except Infra as e:
@@ -227,6 +244,36 @@ def run(tier):
                         break
                 if model is not None and [Fraction(float(v)) for v in out] != model:
                     note(kind, payload, f'model minimize {ans[i]} != implementation {out}', False)
+            elif kind == 'min2':
+                rows, which = payload
+                if which == 'Poly2DType':
+                    p = Poly2DType(Coefs=rows)
+                    p.minimize_order()
+                    outs = [p.Coefs]
+                else:
+                    if which == 'GainPhasePoly':
+                        from sarpy.io.complex.sicd_elements.blocks import GainPhasePolyType
+                    else:
+                        from sarpy.io.phase_history.cphd1_elements.Antenna import GainPhasePolyType
+                    g = GainPhasePolyType(GainPoly=rows, PhasePoly=[list(reversed(rw)) for rw in rows])
+                    g.minimize_order()
+                    outs = [g.GainPoly.Coefs]
+                out = numpy.asarray(outs[0])
+                if out.ndim != 2 or out.shape[0] < 1 or out.shape[1] < 1:
+                    note(kind, payload, f'minimize_order left shape {out.shape}', True)
+                    continue
+                for (x, y) in ((0.0, 0.0), (1.0, 1.0), (-2.0, 0.5), (0.5, 3.0)):
+                    v0 = sum(Fraction(rows[i_][j]) * Fraction(x) ** i_ * Fraction(y) ** j for i_ in range(len(rows)) for j in range(len(rows[0])))
+                    v1 = sum(Fraction(float(out[i_, j])) * Fraction(x) ** i_ * Fraction(y) ** j for i_ in range(out.shape[0]) for j in range(out.shape[1]))
+                    if v0 != v1:
+                        note(kind, payload, f'{which}.minimize_order changed the polynomial: value at ({x}, {y}) {float(v0)!r} -> {float(v1)!r}; coefficients {rows} -> {out.tolist()}', True)
+                        break
+                if out.shape != (1, 1) and (not numpy.any(out[-1, :] != 0) or not numpy.any(out[:, -1] != 0)):
+                    note(kind, payload, f'{which}.minimize_order left a trailing all-zero row or column: {out.tolist()}', True)
+                if ans is not None:
+                    model = [parse_qs(t) for t in ans[i].split(';')]
+                    if [[Fraction(float(v)) for v in row] for row in out.tolist()] != model:
+                        note(kind, payload, f'model minimize2 {ans[i]} != implementation {out.tolist()}', False)
             elif kind == 'eval2':
                 rows, x, y = payload
                 p = Poly2DType(Coefs=rows)
